@@ -2072,6 +2072,7 @@ def gen_lq(rng, kinds=('ms', 'ss', 'dc', 'dc_dae')):
 class C19(Check):
     pid = "C19"
     level = "other"
+    uses_generated = True
     slices = ["starting-data (max_iter=0)", "converged-results", "unlisted-keep-current", "parameters-of-every-shape"]
 
     def explanation(self):
